@@ -3,7 +3,7 @@ from vlib.core import core_check
 
 OPTS = [dict(p_rel=1.0), dict(p_rel=1.0, max_m=2, max_t=4), dict(p_rel=1.0, p_nested=0.3),
         dict(p_chain=1.0, max_t=4, max_m=3, p_rel=0.5, p_struct=0.25),
-        dict(p_rel=0.5, p_dblrel=1.0, max_m=3, max_t=3, p_nested=0.05, _weight=2)]
+        dict(p_rel=0.5, p_dblrel=1.0, max_m=3, max_t=4, p_nested=0.05, _weight=3)]
 
 
 def run(rep):
